@@ -16,10 +16,12 @@ func (*inRange) Exit(node *Node) {
 			if _, ok := n.Left.(*NilNode); ok {
 				return
 			}
-			if t := n.Left.Type(); t != nil && !isIntegerKind(t.Kind()) {
+			if t := n.Left.Type(); t != nil && t.Kind() != reflect.Int {
 				// Comparing with the bounds is equivalent to membership
-				// only for integers (not for floats, strings, nil or
-				// values whose type is known only at run time).
+				// only for int operands: not for floats, strings, nil or
+				// values typed only at run time, and not for sized integer
+				// kinds, where the comparison truncates the bounds (an int8
+				// zero is "in" 1..257 through 256, but not >= 1).
 				return
 			}
 			if rng, ok := n.Right.(*BinaryNode); ok && rng.Operator == ".." {
@@ -49,14 +51,4 @@ func (*inRange) Exit(node *Node) {
 			}
 		}
 	}
-}
-
-func isIntegerKind(k reflect.Kind) bool {
-	switch k {
-	case reflect.Int, reflect.Int8, reflect.Int16, reflect.Int32, reflect.Int64:
-		return true
-	case reflect.Uint, reflect.Uint8, reflect.Uint16, reflect.Uint32, reflect.Uint64:
-		return true
-	}
-	return false
 }
